@@ -49,7 +49,7 @@ func unparen(e ast.Expr) ast.Expr {
 func usedVar(info *types.Info, e ast.Expr) *types.Var {
 	switch x := unparen(e).(type) {
 	case *ast.Ident:
-		v, _ := info.Uses[x].(*types.Var)
+		v, _ := info.ObjectOf(x).(*types.Var)
 		return v
 	case *ast.SelectorExpr:
 		if sel := info.Selections[x]; sel != nil {
